@@ -255,8 +255,8 @@ def rows : List Row := [
     "partition / staging table names are derived by the driver: node_<graph id>, edge_<graph id>, node_update_staging"⟩,
   ⟨"pgraw", "drivers/pg/query/format.go", "formatCreatePartitionTable", "strconv.FormatInt(int64(graphID), 10)", "", "const", "generated", "",
     "formatted number"⟩,
-  ⟨"pgraw", "drivers/pg/query/format.go", "formatConflictMatcher", "propertyName", "", "caller-name", "none", "C04:pg.upsert.identity_property:unquoted-key",
-    "identity property names of a node/relationship update batch are concatenated between two apostrophes: (properties->>'NAME') — no quote doubling, no guard"⟩,
+  ⟨"pgraw", "drivers/pg/query/format.go", "formatConflictMatcher", "propertyName", "", "outside-quantifier", "none", "",
+    "outside-quantifier: driver batch API, not query text — the identity property names of graph.NodeUpdate / RelationshipUpdate batches are concatenated between two apostrophes (properties->>'NAME') without quote doubling; C04 quantifies over the positions of an accepted query, so nothing is demanded here; what the lexer sees is recorded as evidence observations.outside_quantifier"⟩,
   ⟨"pgraw", "drivers/pg/query/format.go", "formatConflictMatcher", "defaultOnConflict", "", "const", "generated", "",
     "constant of the driver / text assembled from the rows above"⟩,
   ⟨"pgraw", "drivers/pg/query/format.go", "FormatNodesUpdate", "graphTarget.Partitions.Node.Name", "", "const", "generated", "",
@@ -369,7 +369,6 @@ theorem known_findings_are_rows :
       ["C04:projection.variable:case-folded-identifier", "C04:projection.alias:case-folded-identifier",
        "C04:aggregate_traversal_count.alias:case-folded-identifier", "C04:count_fast_path.alias:case-folded-identifier",
        "C04:regex_operand:like-escaped-value", "C04:like_operand.function_lhs:unescaped-like-pattern",
-       "C04:pg.upsert.identity_property:unquoted-key",
        "C04:builder.v2.scope:case-folded-identifier", "C04:builder.v2.alias:case-folded-identifier"] := by decide +kernel
 
 /-- the LIKE rows as regenerated facts: escaping is applied under `if hasLeftPropertyLookup` only, and its operator case
@@ -383,9 +382,16 @@ theorem like_guards :
 
 theorem sites_table_nonempty : 100 ≤ sites.length := by decide +kernel
 
-/-- the only unguarded rows are the known upsert finding and the deployment-time schema names (outside C04's quantifier) -/
+/-- the only unguarded rows are known findings (the LIKE concatenations) or text that is not part of any query: the
+deployment-time schema names and the identity property names of the driver's update batches -/
 theorem unguarded_rows_named :
-    (rows.filter (fun r => r.esc == "none")).all (fun r => r.finding != "" || r.prov == "schema-config") = true := by decide +kernel
+    (rows.filter (fun r => r.esc == "none")).all
+      (fun r => r.finding != "" || r.prov == "schema-config" || r.prov == "outside-quantifier") = true := by decide +kernel
+
+/-- rows outside the quantifier name no finding -/
+theorem outside_rows_no_finding :
+    (rows.filter (fun r => r.prov == "schema-config" || r.prov == "outside-quantifier")).all (fun r => r.finding == "") = true := by
+  decide +kernel
 
 /-- every guard the rows rely on is called where the rows say: scope aliases, projection aliases and parameter symbols
 go through validateCypherSymbol; variables through the known/bound identifier checks -/
